@@ -382,20 +382,16 @@ Proof.
     + constructor; [|constructor]. cbn [reg_hash]. split; intros Hc; [destruct Hc|]; discriminate.
   - remember (b :: tk) as tok eqn:Etok.
     destruct (tget (crc64 tok) (tbl s)) as [o0|] eqn:Eg.
-    + (* token in use: refused, and the deferred cleanUp deletes the key *)
-      replace (match tok with [] => (mkSt (tbl s) (regs s ++ [tok]), [RegRet (length (regs s)) 5]) | _ :: _ => (mkSt (tdel (crc64 tok) (tbl s)) (regs s ++ [tok]), [RegRet (length (regs s)) 3]) end)
-        with (mkSt (tdel (crc64 tok) (tbl s)) (regs s ++ [tok]), [RegRet (length (regs s)) 3]) in H by (subst tok; reflexivity).
+    + (* token in use: refused; the table is left alone *)
+      replace (match tok with [] => (mkSt (tbl s) (regs s ++ [tok]), [RegRet (length (regs s)) 5]) | _ :: _ => (mkSt (tbl s) (regs s ++ [tok]), [RegRet (length (regs s)) 3]) end)
+        with (mkSt (tbl s) (regs s ++ [tok]), [RegRet (length (regs s)) 3]) in H by (subst tok; reflexivity).
       inversion H; subst s' os; clear H.
       apply (inv_quiet s); try assumption; cbn [regs tbl]; try reflexivity.
-      * intros k o Ho. left. destruct (Z.eq_dec k (crc64 tok)) as [E|N].
-        -- subst k. rewrite tget_tdel_same in Ho. discriminate.
-        -- rewrite tget_tdel_other in Ho by exact N. exact Ho.
+      * intros k o Ho. left. exact Ho.
       * intros id He. cbn [existsb ends orb] in He. rewrite orb_false_r in He.
         apply andb_true_iff in He. destruct He as [He _]. apply Nat.eqb_eq in He. subst id.
         split; [rewrite app_length; cbn; lia|].
-        intros k o Ho. destruct (Z.eq_dec k (crc64 tok)) as [E|N].
-        -- subst k. rewrite tget_tdel_same in Ho. discriminate.
-        -- rewrite tget_tdel_other in Ho by exact N. pose proof (inv_id_lt _ _ _ _ HI Ho). lia.
+        intros k o Ho. pose proof (inv_id_lt _ _ _ _ HI Ho). lia.
       * constructor; [exact I|constructor].
       * constructor; [|constructor]. cbn [reg_hash]. split; intros Hc; [destruct Hc|]; discriminate.
     + replace (match tok with [] => (mkSt (tbl s) (regs s ++ [tok]), [RegRet (length (regs s)) 5]) | _ :: _ => (mkSt (tset (crc64 tok) (mkObs (length (regs s)) tok 0 zeroTimeUnixNano true) (tbl s)) (regs s ++ [tok]), []) end)
